@@ -82,7 +82,8 @@ func rulesC19(c *Ctx) {
 		"R19.4 every registered test can fail: it reaches a verdict (chk.*, t.Fatal*/Error*) that is not cut off by an unconditional Skip",
 		"R19.7 the shared clean-up helper flushes all network instances with the election override and fails the test when the flush is refused",
 		"R19.5 configuration set through the exported setters is read when a test runs: no package-level initialiser or init function reads a configurable variable",
-		"R19.6 a result assertion inside a loop depends on the iteration (otherwise one acknowledgement satisfies every iteration and a repeated operation is never examined)")
+		"R19.6 a result assertion inside a loop depends on the iteration (otherwise one acknowledgement satisfies every iteration and a repeated operation is never examined)",
+		"R19.8 the result list a matcher examines is one client's own results, never a list accumulated from several clients")
 	c.NotDec = append(c.NotDec, "actual pass/fail of any test against any server — that is an execution", "the fault catalogue: whether each requirement's tests detect a server violating it")
 	entries := suiteEntries(c)
 	if len(entries) < 75 {
@@ -108,6 +109,7 @@ func rulesC19(c *Ctx) {
 	ruleCleanupOrder(c)          // and the tests' deferred flush / Stop run in the order that ends the session
 	clearPendingTable(c, false)  // a result for an operation the client never sent surfaces as a receive error, which is what the isolation tests look for (shared with C13, whose known finding F25 — the FIB-ack tolerance — is its own)
 	ruleClientErrorConversion(c) // the count matchers examine the caller's own error (shared with C17)
+	ruleResultsPerClient(c)      // a verdict about a client is computed from that client's own results
 	ruleConnectLifecycle(c)      // a finished test's session really ends (Stop → Close → disconnect on every path): a session left open constrains the parameters of every later test on a long-lived server (shared with C14)
 }
 
@@ -880,4 +882,135 @@ func ruleCleanupOrder(c *Ctx) {
 	c.check(len(bad) == 0, rule, "compliance", "a client's flush is deferred before its Stop", "-", fmt.Sprintf("%d deferred flushes, none declared after the Stop of the same client", n),
 		"the deferred flush runs before the client's deferred Stop (last-in first-out), on a session that is still open: "+strings.Join(bad, "; "))
 	c.floor(rule, "deferred flushServer calls in the compliance tests", n, 20)
+}
+
+// ruleResultsPerClient: a verdict about a client is computed from that client's own results. The result list handed to
+// chk.HasResult / HasResultsCache is one client's Results(t) (directly, through a local defined by one call, or a
+// parameter); a list accumulated with append from the Results of clients pools several sessions: an expectation
+// meant for one client is then satisfied by what another one received (a server that misreports to the second client
+// passes).
+func ruleResultsPerClient(c *Ctx) {
+	const rule = "RESULTS-PER-CLIENT"
+	isOpResults := func(t types.Type) bool {
+		sl, ok := t.Underlying().(*types.Slice)
+		return ok && isNamed(sl.Elem(), modPath+"/client", "OpResult")
+	}
+	sites := 0
+	for _, fi := range c.P.AllFuncs("compliance") {
+		if fi.Decl.Body == nil {
+			continue
+		}
+		info := fi.Pkg.TypesInfo
+		// locals of result-list type that gather the Results(…) of more than one client: two different receivers among
+		// everything assigned or appended to the local, or one receiver that changes with the iteration of a loop
+		// the accumulation sits in
+		pooled := map[types.Object]token.Pos{}
+		sources := map[types.Object]map[string]bool{}
+		var loops []ast.Node
+		var walk func(n ast.Node)
+		walk = func(root ast.Node) {
+			ast.Inspect(root, func(n ast.Node) bool {
+				if n == nil || n == root {
+					return true
+				}
+				switch x := n.(type) {
+				case *ast.ForStmt, *ast.RangeStmt:
+					loops = append(loops, x)
+					walk(x)
+					loops = loops[:len(loops)-1]
+					return false
+				case *ast.AssignStmt:
+					if len(x.Lhs) != len(x.Rhs) {
+						return true
+					}
+					for i, l := range x.Lhs {
+						o := objOfIdent(info, l)
+						if o == nil || !isOpResults(o.Type()) {
+							continue
+						}
+						ast.Inspect(x.Rhs[i], func(m ast.Node) bool {
+							var key string
+							var root types.Object
+							switch y := m.(type) {
+							case *ast.CallExpr:
+								f, ok := calleeObj(info, y).(*types.Func)
+								if !ok || f.Name() != "Results" || f.Pkg() == nil || f.Pkg().Path() != modPath+"/fluent" {
+									return true
+								}
+								se, ok := ast.Unparen(y.Fun).(*ast.SelectorExpr)
+								if !ok {
+									return true
+								}
+								ro, rp := selectorPath(info, se.X)
+								if ro == nil {
+									key = types.ExprString(se.X)
+								} else {
+									root, key = ro, fmt.Sprintf("%s@%d.%s", ro.Name(), ro.Pos(), strings.Join(rp, "."))
+								}
+							case *ast.Ident:
+								v, ok := info.ObjectOf(y).(*types.Var)
+								if !ok || v == o || !isOpResults(v.Type()) {
+									return true
+								}
+								root, key = v, fmt.Sprintf("list %s@%d", v.Name(), v.Pos())
+							default:
+								return true
+							}
+							if sources[o] == nil {
+								sources[o] = map[string]bool{}
+							}
+							sources[o][key] = true
+							varying := false
+							for _, lp := range loops {
+								if root != nil && lp.Pos() <= root.Pos() && root.Pos() < lp.End() {
+									varying = true
+								}
+							}
+							if (len(sources[o]) > 1 || varying) && pooled[o] == 0 {
+								pooled[o] = x.Pos()
+							}
+							return true
+						})
+					}
+				}
+				return true
+			})
+		}
+		walk(fi.Decl.Body)
+		for _, call := range callsIn(fi.Decl.Body) {
+			f, ok := calleeObj(info, call).(*types.Func)
+			if !ok || f.Pkg() == nil || f.Pkg().Path() != modPath+"/chk" || (f.Name() != "HasResult" && f.Name() != "HasResultsCache") || len(call.Args) < 3 {
+				continue
+			}
+			sites++
+			c.Sites++
+			c.Analysed[fi.Name] = true
+			if o := objOfIdent(info, call.Args[1]); o != nil {
+				if pos, isPooled := pooled[frameArgRoot(info, fi.Decl, o)]; isPooled {
+					c.fail(rule, fi.Name, "result list of "+f.Name(), c.P.pos(call.Pos()),
+						"the results examined are accumulated with append from the results of clients ("+c.P.pos(pos)+"): an expectation about one client is satisfied by what another client received")
+				}
+			}
+		}
+		for o, pos := range pooled {
+			_ = o
+			c.Analysed[fi.Name] = true
+			// (reported once per function even when no matcher reads it directly: it may be handed to a helper)
+			used := false
+			for _, call := range callsIn(fi.Decl.Body) {
+				for _, a := range call.Args {
+					if objOfIdent(info, a) == o {
+						used = true
+					}
+				}
+			}
+			if used {
+				c.fail(rule, fi.Name, "pooled result list", c.P.pos(pos), "a list of operation results is accumulated from several Results(…) calls and handed on: verdicts computed from it no longer belong to one client")
+			}
+		}
+	}
+	c.floor(rule, "result matchers whose result list was traced", sites, 100)
+	if sites >= 100 {
+		c.ok(rule, "compliance", "result lists", "-", fmt.Sprintf("%d HasResult/HasResultsCache calls read one client's results (no accumulated list)", sites))
+	}
 }
